@@ -85,7 +85,8 @@ def matrix_inverse_root(
 
     # check if matrix is scalar
     if torch.numel(A) == 1:
-        return (A + epsilon) ** torch.as_tensor(-1.0 / root)
+        # Make the eigenvalue >= 0 (if necessary), consistent with the eigendecomposition-based computation.
+        return (A - torch.clamp(A, max=0.0) + epsilon) ** torch.as_tensor(-1.0 / root)
 
     # check matrix shape
     if len(A.shape) != 2:
